@@ -234,6 +234,9 @@ def checkWalk (st : State) (cmd : String) (start : Cell) (d : Rat) (jump : Bool)
       else if jump && !isNodeCell st.obs x then some s!"PROPFAIL C15 jump result-not-an-end-node result={showCell x}"
       else if d ≥ 0 && !st.obs.walkGHas false start d jump o then
         some s!"PROPFAIL C15 {if jump then "jump" else "cost"} result={showCell x} allowed={showOutcomes (st.obs.walkRelaxed start d jump)}"
+      -- reachable when visited nodes may be re-entered at will, but by no trip that prefers unvisited neighbours
+      else if d ≥ 0 && !st.obs.walkGHas true start d jump o then
+        some s!"PROPFAIL C15 prefers_unvisited result={showCell x} allowed={showOutcomes (st.obs.walk start d jump)}"
       else none
     | .err e =>
       if !hasNode && e != .invalid_argument then some s!"PROPFAIL C15 start_needs_node wrong-error={errTok e}"
